@@ -257,7 +257,7 @@ func probeOf(c *types.ProcessConfig, spec string) (string, int) {
 		if k, err := fmt.Sscanf(h.Path, "/check/T%d/%d", &t, &n); err != nil || k != 2 {
 			return s, 8887
 		}
-		if h.Port != "80"+strconv.Itoa(n) || h.NumPort != mustAtoi("80"+strconv.Itoa(n)) {
+		if h.Port != "80"+strconv.Itoa(n) { // NumPort (0 above 65535) is part of the digest
 			return s, 8886
 		}
 		return s, n
@@ -267,8 +267,6 @@ func probeOf(c *types.ProcessConfig, spec string) (string, int) {
 	}
 	return "", c.ReplicaNum
 }
-
-func mustAtoi(s string) int { v, _ := strconv.Atoi(s); return v }
 
 // ---------------------------------------------------------------------------------------------- running
 
@@ -994,37 +992,57 @@ func main() {
 		ncases, nchecked, nmis = nameSweep(limit, r)
 	}
 
-	var sb strings.Builder
-	sb.WriteString("From Coq Require Import List ZArith NArith String.\nFrom PC.Replica Require Import Model Check.\nImport ListNotations.\nLocal Open Scope string_scope.\n")
-	sb.WriteString("Definition cases : list ocase := [\n")
-	first := true
+	header := "From Coq Require Import List ZArith NArith String.\nFrom PC.Replica Require Import Model Check.\nImport ListNotations.\nLocal Open Scope string_scope.\n"
+	results := []string{"bad_model", "bad_monitor", "bad_init", "bad_error", "bad_names", "bad_config", "bad_maps", "bad_kept", "bad_removed", "bad_added", "bad_others", "bad_quiet"}
 	var kept []*Case
 	for _, c := range cases {
-		if c.Init == nil {
-			continue
+		if c.Init != nil {
+			kept = append(kept, c)
 		}
-		if !first {
-			sb.WriteString(";\n")
+	}
+	// shards of bounded size: one coqc process per shard (memory), indices are offset by the check
+	var shards [][2]int
+	start, size := 0, 0
+	for i, c := range kept {
+		sz := len(c.Init.Entries)
+		for _, st := range c.Steps {
+			sz += len(st.Entries)
 		}
-		first = false
-		sb.WriteString(caseCoq(c))
-		kept = append(kept, c)
-	}
-	sb.WriteString("\n].\n")
-	sb.WriteString("Definition ncases : list (bytes * N * N * bytes) := [\n")
-	for i, n := range ncases {
-		if i > 0 {
-			sb.WriteString(";\n")
+		if size > 0 && (size+sz > 2500 || i-start >= 80) {
+			shards = append(shards, [2]int{start, i})
+			start, size = i, 0
 		}
-		sb.WriteString(nameCoq(n))
+		size += sz
 	}
-	sb.WriteString("\n].\n")
-	for _, nm := range []string{"bad_model", "bad_monitor", "bad_init", "bad_error", "bad_names", "bad_config", "bad_maps", "bad_kept", "bad_removed", "bad_added", "bad_others", "bad_quiet"} {
-		fmt.Fprintf(&sb, "Definition r_%s := Eval vm_compute in %s cases.\nPrint r_%s.\n", nm, nm, nm)
-	}
-	sb.WriteString("Definition r_bad_namecases := Eval vm_compute in bad_namecases ncases.\nPrint r_bad_namecases.\n")
-	if err := os.WriteFile(filepath.Join(*out, "cases_C13.v"), []byte(sb.String()), 0o644); err != nil {
-		panic(err)
+	shards = append(shards, [2]int{start, len(kept)})
+	for k, sh := range shards {
+		var sb strings.Builder
+		sb.WriteString(header)
+		sb.WriteString("Definition cases : list ocase := [\n")
+		for i := sh[0]; i < sh[1]; i++ {
+			if i > sh[0] {
+				sb.WriteString(";\n")
+			}
+			sb.WriteString(caseCoq(kept[i]))
+		}
+		sb.WriteString("\n].\n")
+		for _, nm := range results {
+			fmt.Fprintf(&sb, "Definition r_%s := Eval vm_compute in %s cases.\nPrint r_%s.\n", nm, nm, nm)
+		}
+		if k == 0 {
+			sb.WriteString("Definition ncases : list (bytes * N * N * bytes) := [\n")
+			for i, n := range ncases {
+				if i > 0 {
+					sb.WriteString(";\n")
+				}
+				sb.WriteString(nameCoq(n))
+			}
+			sb.WriteString("\n].\n")
+			sb.WriteString("Definition r_bad_namecases := Eval vm_compute in bad_namecases ncases.\nPrint r_bad_namecases.\n")
+		}
+		if err := os.WriteFile(filepath.Join(*out, fmt.Sprintf("cases_C13_%03d.v", k)), []byte(sb.String()), 0o644); err != nil {
+			panic(err)
+		}
 	}
 	js, _ := json.Marshal(kept)
 	if err := os.WriteFile(filepath.Join(*out, "cases_C13.json"), js, 0o644); err != nil {
@@ -1092,6 +1110,9 @@ func main() {
 		stats["name_function_first_mismatch"] = nmis[0]
 	}
 	stats["run_seconds"] = runSecs
+	shardInfo := make([][2]int, len(shards))
+	copy(shardInfo, shards)
+	stats["shards"] = shardInfo
 	line, _ := json.Marshal(stats)
 	fmt.Fprintln(stdout, string(line))
 }
